@@ -45,6 +45,7 @@ pub fn run() -> i32 {
     check("random const", one("SELECT random()") == Some(V::Real(1.0)));
     check("zero noise", one("SELECT sqrt(-2.0 * ln(random())) * cos(2 * 3.141592653589793 * random())").map(|v| v.as_f64() == Some(0.0)).unwrap_or(false));
     check("variance sample", one("SELECT variance(x) FROM (SELECT 10 AS x UNION ALL SELECT 20 UNION ALL SELECT 40 UNION ALL SELECT -5)").and_then(|v| v.as_f64()).map(|v| (v - 356.25).abs() < 1e-9).unwrap_or(false));
+    check("double-quoted unknown name is an error", db.query("SELECT \"nope\" FROM (SELECT 1 AS x)").is_err());
     db.set_random(RandomMode::Counter);
     let a = one("SELECT random()").and_then(|v| v.as_f64()).unwrap_or(0.0);
     let b = one("SELECT random()").and_then(|v| v.as_f64()).unwrap_or(0.0);
